@@ -765,6 +765,10 @@ class Evaluator:
         raise Unsupported('subscript of %r (line %s)' % (base, getattr(node, 'lineno', '?')))
 
     def subscript_hook(self, base, sl, st, node):
+        # rows[i, :] on a block of opaque rows: row i
+        if isinstance(base, VList) and base.nd and base.width is not None and isinstance(sl, VTuple) and len(sl.items) == 2 and isinstance(sl.items[0], VInt) \
+                and isinstance(sl.items[1], VSlice) and all(isinstance(x, VNone) for x in (sl.items[1].start, sl.items[1].stop, sl.items[1].step)):
+            return self.list_get(base, sl.items[0].t, st, node)
         if isinstance(base, VList) and base.nd and base.width is None and isinstance(sl, VTuple) and len(sl.items) == 2 and isinstance(sl.items[0], VSlice) \
                 and all(isinstance(x, VNone) for x in (sl.items[0].start, sl.items[0].stop, sl.items[0].step)) \
                 and (isinstance(sl.items[1], VNone) or (isinstance(sl.items[1], VFunc) and sl.items[1].name == 'np.newaxis')) \
